@@ -1,6 +1,7 @@
 import WfModel.GenResource
 import WfProofs.ResourceProps
 import WfProofs.ResourceProgress
+import WfProofs.ResourceVal
 /-!
 # C22 — resource injection honors caching and cycle detection under concurrency
 
@@ -105,13 +106,51 @@ theorem C22_mutual_exclusion (b : Bool) (g : Graph) (acts : List Act) (t t' : Na
   (inv_run_excl ⟨true, b⟩ rfl g acts).solo h1 h2 a1 a2
 
 example : ∃ (g : Graph) (acts : List Act) (k : Task), (run ⟨true, true⟩ g acts).tasks[0]? = some k ∧ k.phase = .active :=
-  ⟨[⟨true, true, false, []⟩], [.spawn [0] false, .tick, .tick, .tick, .spawn [0] false, .tick], _, rfl, rfl⟩
+  ⟨[⟨true, true, false, [], .obj⟩], [.spawn [0] false, .tick, .tick, .tick, .spawn [0] false, .tick], _, rfl, rfl⟩
 
 theorem C22_cached_created_once (b : Bool) : C22_statement_cached_once ⟨true, b⟩ :=
   fun g acts x hc => ((inv_run_excl ⟨true, b⟩ rfl g acts).madeC x hc).1
 
-example : isCached [⟨true, true, false, []⟩] 0 = true ∧
-    countMade (run ⟨true, true⟩ [⟨true, true, false, []⟩]
+example : isCached [⟨true, true, false, [], .obj⟩] 0 = true ∧
+    countMade (run ⟨true, true⟩ [⟨true, true, false, [], .obj⟩]
+      [.spawn [0] false, .tick, .tick, .tick, .spawn [0] false, .tick, .resume 0, .tick, .resume 1, .tick, .tick, .tick]).log 0 = 1 := by
+  decide
+
+/-- *Fresh for each step invocation, shared within one dependency resolution*, as a
+count: inside one invocation a factory returns at most once, however many consumers
+the resource has in that resolution (the diamond `b -> d <- c` builds `d` once).  For a
+resource whose value is an interned singleton (`None`, `0`, `""`, `False`) the count is
+the only observable of this clause -- the identity of what is injected cannot differ. -/
+theorem C22_created_once_per_invocation (b : Bool) (g : Graph) (acts : List Act) (t x : Nat) :
+    countMadeBy (run ⟨true, b⟩ g acts).log t x ≤ 1 :=
+  (inv_run_excl ⟨true, b⟩ rfl g acts).madeN t x
+
+/-- the diamond over a non-cached, `None`-valued `d` (resource 0), requested twice:
+each invocation builds `d` exactly once -/
+example :
+    let g : Graph := [⟨false, false, false, [], .pyNone⟩, ⟨false, false, false, [0], .obj⟩,
+      ⟨false, false, false, [0], .obj⟩, ⟨false, false, false, [1, 2], .obj⟩]
+    let s := settle ⟨true, true⟩ g 40 (stepD ⟨true, true⟩ g (settle ⟨true, true⟩ g 40 (run ⟨true, true⟩ g [.spawn [3] false]))
+      (.spawn [3] false))
+    s.tasks.map (·.phase) = [.done (.ok [3]), .done (.ok [7])] ∧
+    countMadeBy s.log 0 0 = 1 ∧ countMadeBy s.log 1 0 = 1 ∧ countMade s.log 0 = 2 := by
+  decide
+
+/-- **The value a factory returns plays no part**: a graph and the same graph with
+every value replaced by an ordinary object have the same runs -- the same factory
+calls, caches, lock hand-offs and outcomes, on every schedule and in either
+configuration.  In particular every clause above holds unchanged for resources whose
+value is `None`, `0`, `""`, `[]` or `False`: a stored falsy value is a cache hit. -/
+theorem C22_value_independent (c : Cfg) (g : Graph) (acts : List Act) :
+    run c (eraseVals g) acts = run c g acts :=
+  run_eraseVals c g acts
+
+/-- a cached, async, `None`-valued resource requested by two overlapping invocations is
+created once; the graph is not its own erasure -/
+example :
+    let g : Graph := [⟨true, true, false, [], .pyNone⟩]
+    eraseVals g ≠ g ∧ (valueOf g 0).truthy = false ∧ isCached g 0 = true ∧
+    countMade (run ⟨true, true⟩ g
       [.spawn [0] false, .tick, .tick, .tick, .spawn [0] false, .tick, .resume 0, .tick, .resume 1, .tick, .tick, .tick]).log 0 = 1 := by
   decide
 
@@ -146,8 +185,8 @@ theorem C22_resolution_terminates (b : Bool) (g : Graph) (acts : List Act) :
 
 /-- a self-cycle behind a dependency: three ticks after the spawn the invocation has
 finished with the cycle error -/
-example : (settle ⟨true, true⟩ [⟨true, false, false, [1]⟩, ⟨false, false, false, [1]⟩] 5
-    (run ⟨true, true⟩ [⟨true, false, false, [1]⟩, ⟨false, false, false, [1]⟩] [.spawn [0] false])).tasks.map (·.phase)
+example : (settle ⟨true, true⟩ [⟨true, false, false, [1], .obj⟩, ⟨false, false, false, [1], .obj⟩] 5
+    (run ⟨true, true⟩ [⟨true, false, false, [1], .obj⟩, ⟨false, false, false, [1], .obj⟩] [.spawn [0] false])).tasks.map (·.phase)
     = [.done (.cycle [0, 1, 1])] := by decide
 
 /-- **The property, concurrent, for the tree as it is**: all clauses, for every graph
@@ -187,11 +226,11 @@ theorem C22_resolution_terminates_sequential (c : Cfg) (g : Graph) (acts : List 
 
 /-- a serial schedule with two invocations, the first suspended at an async factory
 in between -/
-example : serialFrom ⟨false, false⟩ [⟨false, true, false, []⟩] St.init
+example : serialFrom ⟨false, false⟩ [⟨false, true, false, [], .obj⟩] St.init
     [.spawn [0] false, .tick, .tick, .tick, .resume 0, .tick, .tick, .spawn [0, 0] false, .tick, .tick, .tick] = true := by
   decide
 
-def C22_witness_graph_one : Graph := [⟨true, true, false, []⟩]
+def C22_witness_graph_one : Graph := [⟨true, true, false, [], .obj⟩]
 
 /-- two invocations resolve the same async factory; the second starts while the
 first is suspended at the factory's await -/
@@ -210,10 +249,10 @@ theorem C22_refuted_unlocked_false_cycle (b : Bool) : ¬ C22_statement_no_false_
   obtain ⟨⟨r, hr, hna⟩, _⟩ := h _ _ 1 k _ hk hd
   rw [hreq] at hr
   simp at hr; subst hr
-  exact hna (Acyc.mk 0 ⟨true, true, false, []⟩ rfl (by simp))
+  exact hna (Acyc.mk 0 ⟨true, true, false, [], .obj⟩ rfl (by simp))
 
 /-- `r0` non-cached sync, `r1` cached async -/
-def C22_witness_graph_two : Graph := [⟨false, false, false, []⟩, ⟨true, true, false, []⟩]
+def C22_witness_graph_two : Graph := [⟨false, false, false, [], .obj⟩, ⟨true, true, false, [], .obj⟩]
 
 /-- invocation 0 resolves `r0`, then suspends in `r1`; invocation 1 asks for `r0` -/
 def C22_witness_scope_leak : List Act :=
@@ -234,7 +273,7 @@ theorem C22_refuted_unlocked_scope_leak (b : Bool) : ¬ C22_statement_scope_isol
   cases this
 
 /-- `r0`, `r1` non-cached async -/
-def C22_witness_graph_three : Graph := [⟨false, true, false, []⟩, ⟨false, true, false, []⟩]
+def C22_witness_graph_three : Graph := [⟨false, true, false, [], .obj⟩, ⟨false, true, false, [], .obj⟩]
 
 /-- invocation 0 (`partial`, `r0`) suspends; a bare `get(r1)` joins its scope and
 suspends; 0 finishes and closes the scope; the bare get then stores its value in the
